@@ -173,29 +173,55 @@ func H12Exec() {
 
 // H12Gate: a failing pre-hook stops the operation before any release resource
 // is touched; a failing post-hook makes the operation fail; --no-hooks creates
-// no hook at all; hook objects never appear in the release manifest.
+// no hook at all — also not on the rollback / uninstall that --atomic runs after
+// a failure, and not for rollback and uninstall themselves; hook objects never
+// appear in the release manifest. One symbolic cluster failure anywhere (hook
+// readiness, create, update, wait).
 func H12Gate() {
 	w := newWorld(newFaultPlan(0, 0, "kube"))
-	upgrade := ndBool("upgrade")
-	if upgrade {
+	op := ndChoice("op", 4) // install, upgrade, rollback, uninstall
+	historyHooks = true
+	switch op {
+	case 1, 3:
 		prepareHistory(w, 1)
+	case 2:
+		prepareHistory(w, 4)
 	}
+	historyHooks = false
 	w.kube.log, w.kube.writes = nil, nil
-	w.f.budget, w.f.onlySite = 1, "waiter.WatchUntilReady"
+	w.f.budget = 1
 	noHooks := ndBool("nohooks")
+	atomic := false
 	var err error
 	var rel *release.Release
-	if upgrade {
-		u := NewUpgrade(w.config())
-		u.Namespace, u.DisableHooks = "default", noHooks
-		rel, err = u.Run(relName, mkChart(1, true), map[string]interface{}{})
-	} else {
+	switch op {
+	case 0:
 		i := NewInstall(w.config())
 		i.ReleaseName, i.Namespace, i.DisableHooks = relName, "default", noHooks
+		atomic = ndBool("atomic")
+		i.Atomic = atomic
 		rel, err = i.Run(mkChart(1, true), map[string]interface{}{})
+	case 1:
+		u := NewUpgrade(w.config())
+		u.Namespace, u.DisableHooks = "default", noHooks
+		atomic = ndBool("atomic")
+		u.Atomic = atomic
+		u.CleanupOnFail = ndBool("cleanupOnFail")
+		rel, err = u.Run(relName, mkChart(1, true), map[string]interface{}{})
+	case 2:
+		r := NewRollback(w.config())
+		r.DisableHooks = noHooks
+		r.CleanupOnFail = ndBool("cleanupOnFail")
+		err = r.Run(relName)
+	case 3:
+		u := NewUninstall(w.config())
+		u.DisableHooks = noHooks
+		u.KeepHistory = ndBool("keepHistory")
+		_, err = u.Run(relName)
 	}
 	hookWrites, manifestWrites, waits := 0, 0, 0
-	firstManifestWrite, failedWait := -1, -1
+	firstManifestWrite, failedWait, failedOrdinal := -1, w.kube.failedWaitAt, 0
+	hookWaitFailed := failedWait >= 0
 	for k, l := range w.kube.log {
 		isWrite := strings.HasPrefix(l, "Create ") || strings.HasPrefix(l, "Update ") || strings.HasPrefix(l, "Delete ")
 		if isWrite && strings.Contains(l, "Job/hk") {
@@ -209,27 +235,36 @@ func H12Gate() {
 		}
 		if strings.HasPrefix(l, "WatchUntilReady ") {
 			waits++
-			if len(w.f.fired) > 0 {
-				failedWait = k // the last wait seen is the failing one (execution stops there)
+			if k == failedWait {
+				failedOrdinal = waits
 			}
 		}
 	}
+	vTag(fmt.Sprintf("op=%d nohooks=%v atomic=%v faults=%v", op, noHooks, atomic, w.f.fired))
 	if noHooks {
 		vAssert("gate/no-hooks-creates-no-hook", hookWrites == 0 && waits == 0)
-		vAssert("gate/no-hooks-succeeds", err == nil)
-	} else if len(w.f.fired) > 0 {
+		if len(w.f.fired) == 0 {
+			vAssert("gate/no-hooks-succeeds", err == nil)
+		}
+	} else if hookWaitFailed {
 		vAssert("gate/hook-failure-fails-operation", err != nil)
-		if waits == 1 {
-			vAssert("gate/pre-hook-failure-touches-no-release-resource", manifestWrites == 0)
+		if !atomic && op != 3 {
+			if failedOrdinal == 1 {
+				vAssert("gate/pre-hook-failure-touches-no-release-resource", manifestWrites == 0)
+			}
+			if firstManifestWrite >= 0 {
+				vAssert("gate/post-hook-runs-after-resources", failedWait > firstManifestWrite)
+			}
 		}
-		if firstManifestWrite >= 0 {
-			vAssert("gate/post-hook-runs-after-resources", failedWait > firstManifestWrite)
+	} else if len(w.f.fired) == 0 {
+		vAssert("gate/success", err == nil && waits == 2)
+		if op != 3 {
+			vAssert("gate/success-touched-resources", firstManifestWrite >= 0)
 		}
-	} else {
-		vAssert("gate/success", err == nil && waits == 2 && firstManifestWrite >= 0)
 	}
 	if rel != nil {
 		vAssert("gate/hooks-not-in-manifest", !strings.Contains(rel.Manifest, "kind: Job"))
 	}
-	vObservef("upgrade=%v nohooks=%v err=%v log=%s", upgrade, noHooks, err != nil, fmt.Sprint(w.kube.writes))
+	vObservef("op=%d nohooks=%v atomic=%v err=%v log=%s", op, noHooks, atomic, err != nil, fmt.Sprint(w.kube.writes))
 }
+
